@@ -654,7 +654,26 @@ func oracleFor(prop string, fail func(oracleCase, string, map[string]any), sum *
 			twice := c.gp.Sanitize(once)
 			if once != twice {
 				if sortedAttrs(once) == sortedAttrs(twice) {
-					fail(c, "sanitising the output again changes only the order of the attributes of a tag", map[string]any{"once": once, "twice": twice})
+					// which tag, and which of the attributes the passes can force on that element the policy itself allows
+					t1, t2 := goTokens(once), goTokens(twice)
+					elem, allowed := "", ""
+					for i := range t1 {
+						if i < len(t2) && isTag(t1[i]) && t1[i].String() != t2[i].String() {
+							elem = t1[i].Data
+							break
+						}
+					}
+					relevant := map[string][]string{"a": {"rel", "target"}, "area": {"rel"}, "base": {"rel"}, "link": {"crossorigin", "rel"},
+						"audio": {"crossorigin"}, "img": {"crossorigin"}, "script": {"crossorigin"}, "video": {"crossorigin"}}[elem]
+					var al []string
+					for _, k := range relevant {
+						if specAllowsAttr(c.ps, elem, k) {
+							al = append(al, k)
+						}
+					}
+					allowed = strings.Join(al, ",")
+					fail(c, "sanitising the output again changes only the order of the attributes of a tag", map[string]any{"once": once, "twice": twice,
+						"reordered_elem": elem, "forced_allowed": allowed})
 				} else {
 					fail(c, "sanitising the output again changes it", map[string]any{"once": once, "twice": twice})
 				}
@@ -1027,3 +1046,34 @@ func parseSpec(js string) *PolicySpec {
 }
 
 var _ = sort.Strings
+
+// specAllowsAttr: does a builder call of the spec allow the attribute on the element (named element, matching pattern, or globally)?
+func specAllowsAttr(ps *PolicySpec, elem, key string) bool {
+	for _, o := range ps.Ops {
+		if o.Kind != "attrs" {
+			continue
+		}
+		has := false
+		for _, n := range o.Names {
+			has = has || strings.ToLower(n) == key
+		}
+		if !has {
+			continue
+		}
+		switch o.Scope {
+		case "E":
+			for _, e := range o.ScopeEls {
+				if strings.ToLower(e) == elem {
+					return true
+				}
+			}
+		case "M":
+			if getRx(o.ScopeRe).re.MatchString(elem) {
+				return true
+			}
+		default:
+			return true
+		}
+	}
+	return false
+}
